@@ -76,6 +76,14 @@ static ObjectHeaderBase * make(const Item & it) {
         m->text.assign((size_t) it.b, 't');
         return m;
     }
+    if (it.kind == "apptextr") {          // incompressible text (seeded by the id)
+        auto * m = new AppText;
+        set_id(m, it.a);
+        std::mt19937_64 r((unsigned long) it.a * 7919u + 1);
+        m->text.resize((size_t) it.b);
+        for (auto & c : m->text) c = (char) (r() % 255 + 1);
+        return m;
+    }
     if (it.kind == "t115") {
         auto * m = new RestorePointContainer;
         set_id(m, it.a);
@@ -265,12 +273,71 @@ int main(int argc, char ** argv) {
     for (auto & s : scs) { s.filename = dir + "/" + s.name + ".blf"; byname[s.name] = &s; }
     int rc = 2;
 
+    if (mode == "weak") {
+        // drv_* weak <scenarios> <paths> <out>: the thread sequence of every path is used as a schedule (hints);
+        // what is recorded is the sequence of DISTINCT projections of the real state (one line per execution).
+        std::vector<PPath> paths = load_paths(argv[3]);
+        FILE * out = fopen(argv[4], "w");
+        long n = 0, hangs = 0;
+        std::string firstHang;
+        for (size_t pi = 0; pi < paths.size() && hangs < 3; pi++) {
+            const PPath & p = paths[pi];
+            Scenario * sc = byname[p.init.at(1)];
+            if (!sc) return 2;
+            Session S;
+            start_session(S, *sc);
+            std::vector<std::string> steps;
+            steps.push_back(project(S));
+            auto note = [&] { std::string g = project(S); if (g != steps.back()) steps.push_back(g); };
+            for (size_t si = 0; si < p.steps.size(); si++) {
+                const std::string & t = p.steps[si].act.at(0);
+                if (t == "spur") {
+                    const std::string & w = p.steps[si].act.at(1);
+                    vsched::spurious_wake(w == "A" ? 0 : w == "U" ? 1 : 2);
+                    note();
+                    continue;
+                }
+                int tid = t == "A" ? 0 : t == "U" ? 1 : 2;
+                if (tid < vsched::nthreads() && vsched::runnable(tid)) { vsched::step(tid); note(); }
+            }
+            long budget = 300000;
+            std::string verdict;
+            for (;;) {
+                bool any = false;
+                for (int t = 0; t < vsched::nthreads(); t++)
+                    if (vsched::runnable(t)) { vsched::step(t); note(); any = true; if (--budget <= 0) break; }
+                if (budget <= 0) { verdict = "livelock"; break; }
+                if (!any) { verdict = vsched::all_finished() ? "" : "deadlock"; break; }
+            }
+            fprintf(out, "{\"scen\":\"%s\",\"steps\":%s}\n", sc->name.c_str(),
+                    jarr(steps.begin(), steps.end(), [](const std::string & x) { return x; }).c_str());
+            n++;
+            if (!verdict.empty()) {
+                hangs++;
+                if (firstHang.empty()) firstHang = sc->name + ": " + verdict + " at " + steps.back();
+            }
+            finish_session(S, 20000);
+        }
+        fclose(out);
+        vsched::reset();
+        JObj o;
+        o.puts("driver", "session_weak").put("paths", n).put("mismatches", hangs);
+        if (!firstHang.empty()) {
+            std::string d;
+            for (char c : firstHang) d += (c == '"' || c == '\\') ? '\'' : c;
+            o.puts("first", d);
+        }
+        printf("RESULT %s\n", o.str().c_str());
+        { std::string rm2 = "rm -rf '" + dir + "'"; (void) !system(rm2.c_str()); return 0; }
+    }
+
     if (mode == "describe") {
         for (auto & s : scs) printf("DESC %s\n", describe(s).c_str());
         rc = 0;
     } else if (mode == "replay") {
         std::vector<PPath> paths = load_paths(argv[3]);
         RunStats st;
+        int hangs = 0;
         for (size_t pi = 0; pi < paths.size(); pi++) {
             const PPath & p = paths[pi];
             Scenario * sc = byname[p.init.at(1)];
@@ -310,13 +377,15 @@ int main(int argc, char ** argv) {
                 }
                 if (got != s.expect) { st.mismatch(pi, si, sc->name + " " + join_words(s.act), s.expect, got); bad = true; }
             }
-            std::string v = finish_session(S, 400000);
+            std::string v = finish_session(S, bad ? 20000 : 400000);
             if (!bad && !v.empty())
                 st.mismatch(pi, p.steps.size(), sc->name + " drain", "\"session terminates\"", "\"" + v + "\"");
+            if (!v.empty() && ++hangs >= 3) break;      // every further path would burn its step budget as well
         }
         vsched::reset();
         st.print("wsession");
         rc = 0;
+    } else if (mode == "weakmode") {
     } else if (mode == "random") {
         unsigned long seed = strtoul(argv[3], nullptr, 10);
         long runs = atol(argv[4]);
